@@ -70,7 +70,8 @@ __CPROVER_assigns(VF_BN_FRAME(bn))
 __CPROVER_ensures(__CPROVER_return_value == 0 || __CPROVER_return_value == EOVERFLOW || __CPROVER_return_value == EINVAL)
 __CPROVER_ensures((VF_BN_OLDVAL(bn) != 0 && VF_BN_OLDVAL(n) != 0 &&
     __CPROVER_old(bn->digits) + __CPROVER_old(n->digits) > bn->count) ==> __CPROVER_return_value == EOVERFLOW)
-__CPROVER_ensures(__CPROVER_return_value == 0 ==> (VF_BN_WF(*bn) && VF_BN_VAL(*m) != 0 &&
+__CPROVER_ensures(__CPROVER_return_value == 0 ==> (VF_BN_WF(*bn) && VF_BN_VAL(*m) != 0))
+__CPROVER_ensures(VF_HEAVY(__CPROVER_return_value == 0 ==>
     VF_BN_VAL(*bn) == (VF_BN_OLDVAL(bn) * VF_BN_OLDVAL(n)) % VF_BN_VAL(*m)))
 ;
 static inline int
@@ -78,7 +79,8 @@ bn_mod_mult_digit(bn_p bn, bn_digit_t n, bn_p m, bn_mod_rd_data_p mod_rd_data)
 __CPROVER_requires(VF_BN_BINOP_PRE(bn, m) && bn != m)
 __CPROVER_assigns(VF_BN_FRAME(bn))
 __CPROVER_ensures(__CPROVER_return_value == 0 || __CPROVER_return_value == EOVERFLOW || __CPROVER_return_value == EINVAL)
-__CPROVER_ensures(__CPROVER_return_value == 0 ==> (VF_BN_WF(*bn) && VF_BN_VAL(*m) != 0 &&
+__CPROVER_ensures(__CPROVER_return_value == 0 ==> (VF_BN_WF(*bn) && VF_BN_VAL(*m) != 0))
+__CPROVER_ensures(VF_HEAVY(__CPROVER_return_value == 0 ==>
     VF_BN_VAL(*bn) == (VF_BN_OLDVAL(bn) * n) % VF_BN_VAL(*m)))
 ;
 static inline int
@@ -116,7 +118,7 @@ __CPROVER_ensures((bn->count < m->count || 2 * __CPROVER_old(bn->digits) > bn->c
 __CPROVER_ensures(__CPROVER_return_value == 0 ==> VF_BN_WF(*bn))
 __CPROVER_ensures((__CPROVER_return_value == 0 && exp == 0) ==> VF_BN_VAL(*bn) == 1)
 __CPROVER_ensures((__CPROVER_return_value == 0 && exp == 1) ==> VF_BN_VAL(*bn) == VF_BN_OLDVAL(bn))
-__CPROVER_ensures((__CPROVER_return_value == 0 && exp == 2) ==> VF_BN_VAL(*bn) == (VF_BN_OLDVAL(bn) * VF_BN_OLDVAL(bn)) % VF_BN_VAL(*m))
+__CPROVER_ensures(VF_HEAVY((__CPROVER_return_value == 0 && exp == 2) ==> VF_BN_VAL(*bn) == (VF_BN_OLDVAL(bn) * VF_BN_OLDVAL(bn)) % VF_BN_VAL(*m)))
 ;
 /* bn = bn^exp mod m: loop over bn_calc_bits(exp) bits */
 static inline int
